@@ -90,7 +90,7 @@ def router_stage(check, prop_id, engine, tier, seed, replay, quick_per_shard, th
 PS_RULE = ('(ps) histories of the real pubsub::Topic<u64,_> future driven by a hand-rolled executor: 4-70 random steps of {poll, queue a publisher stream, queue a '
            'subscriber sink, fire the kept waker of a random pending mock, close the channel}, mock answers drawn per call from a per-case profile '
            '(sink pending 0-80%, sink/send errors 0-15%, stream item/pending/error/end weights), at most 40 items per poll; half of the cases poll only when the '
-           'task was woken; final phase quiesce|close|none under the wake-driven executor with every sink ready; non-trivial = history with at least one '
+           'task was woken; final phase quiesce|close|none under the wake-driven executor with every sink ready, except that in one case in three the first flush asked of a subscriber during that phase fails once; non-trivial = history with at least one '
            'Pending or Err answer from a sink')
 
 ROUTER_TRUST = [
